@@ -43,6 +43,10 @@ pub struct E {
     pub kind: K,
     pub mtime: i64,
     pub content: usize,
+    /// size RECORDED in the node's metadata when it differs from the length of the content the reader delivers (`None` = the real
+    /// length): 0 = a stdin-style node (`backup -`, `--stdin-command`, block device saved as file), smaller = a file that grew after
+    /// `stat`, larger = a file that shrank.  Optional 5th field of a state entry.
+    pub rsize: Option<u64>,
 }
 
 fn path_tok(p: &[Vec<u8>]) -> String {
@@ -91,7 +95,10 @@ fn enc_state(es: &[E]) -> String {
                 K::Link(t) => format!("l{}", hex(t)),
                 K::Other(k) => format!("o{k}"),
             };
-            format!("{}:{}:{}:{}", path_tok(&e.path), kind, e.mtime, e.content)
+            match e.rsize {
+                None => format!("{}:{}:{}:{}", path_tok(&e.path), kind, e.mtime, e.content),
+                Some(r) => format!("{}:{}:{}:{}:{}", path_tok(&e.path), kind, e.mtime, e.content, r),
+            }
         })
         .collect::<Vec<_>>()
         .join(";")
@@ -103,7 +110,11 @@ fn parse_state(s: &str) -> Option<Vec<E>> {
     s.split(';')
         .map(|t| {
             let f: Vec<&str> = t.split(':').collect();
-            if f.len() != 4 {
+            if f.len() != 4 && f.len() != 5 {
+                return None;
+            }
+            let rsize = if f.len() == 5 { Some(f[4].parse::<u64>().ok()?) } else { None };
+            if rsize.is_some() && f[1] != "f" {
                 return None;
             }
             let kind = match f[1].split_at(1) {
@@ -116,7 +127,7 @@ fn parse_state(s: &str) -> Option<Vec<E>> {
             if path.is_empty() {
                 return None;
             }
-            Some(E { path, kind, mtime: f[2].parse().ok()?, content: f[3].parse().ok()? })
+            Some(E { path, kind, mtime: f[2].parse().ok()?, content: f[3].parse().ok()?, rsize })
         })
         .collect()
 }
@@ -168,7 +179,8 @@ impl rustic_core::ReadSource for Src {
             for c in &e.path {
                 p.push(OsString::from_vec(c.clone()));
             }
-            let size = if e.kind == K::File { data.len() as u64 } else { 0 };
+            // the size the node RECORDS: the real length unless the entry says otherwise (stdin-style / grown / shrunk files)
+            let size = if e.kind == K::File { e.rsize.unwrap_or(data.len() as u64) } else { 0 };
             let open = (e.kind == K::File).then(|| std::io::Cursor::new(data.clone()));
             v.push(Ok(rustic_core::ReadSourceEntry { path: p, node: node(e.path.last().unwrap(), &e.kind, size, e.mtime), open }));
         }
@@ -252,7 +264,26 @@ fn tree_bytes_of(config: &ConfigFile, entries: &[(E, Vec<u8>)], path: &[Vec<u8>]
     Ok(b.to_vec())
 }
 
-fn exec_hist(parent: &str, avg: &str, min: &str, max: &str, table: &str, states: &str) -> String {
+/// `faults` = `-` or `i.k,…`: before backup `i` (≥ 1) every read of ONE index file (the `k mod n`-th of the n listed, by id) fails
+/// while the index is (re-)loaded — a transient backend error.  The reload must FAIL; it is then repeated without the fault.  Should
+/// it succeed (an index without that file's packs), the backup runs with the index it was given, and the oracles decide.
+fn parse_faults(s: &str) -> Option<BTreeMap<usize, usize>> {
+    if s == "-" {
+        return Some(BTreeMap::new());
+    }
+    s.split(',')
+        .map(|t| {
+            let (i, k) = t.split_once('.')?;
+            let i = i.parse::<usize>().ok().filter(|i| *i >= 1)?;
+            Some((i, k.parse::<usize>().ok()?))
+        })
+        .collect()
+}
+
+fn exec_hist(parent: &str, avg: &str, min: &str, max: &str, table: &str, states: &str, faults: &str) -> String {
+    let Some(faults) = parse_faults(faults) else {
+        return "bad-op".into();
+    };
     let (Ok(avg), Ok(min), Ok(max), Some(table)) = (avg.parse::<usize>(), min.parse::<usize>(), max.parse::<usize>(), parse_table(table)) else {
         return "bad-op".into();
     };
@@ -304,7 +335,25 @@ fn exec_hist(parent: &str, avg: &str, min: &str, max: &str, table: &str, states:
         }
         let (before, packs_before) = tryk!(index_keys(&h));
         let stored_packs_before: BTreeSet<Id> = h.be.ids(FileType::Pack).into_iter().collect();
-        let repo = tryk!(h.open_nc().and_then(|r| r.to_indexed_ids()));
+        let mut faulty_index = None;
+        if let Some(k) = faults.get(&i) {
+            let mut ids = h.be.ids(FileType::Index);
+            ids.sort();
+            if !ids.is_empty() {
+                let id = ids[k % ids.len()];
+                h.be.set_fail_reads_of(FileType::Index, id, true);
+                let r = h.open_nc().and_then(|r| r.to_indexed_ids());
+                h.be.set_fail_reads_of(FileType::Index, id, false);
+                if let Ok(r) = r {
+                    // the reload "succeeded" although one index file could not be read: go on with what it returned
+                    faulty_index = Some(r);
+                }
+            }
+        }
+        let repo = match faulty_index {
+            Some(r) => r,
+            None => tryk!(h.open_nc().and_then(|r| r.to_indexed_ids())),
+        };
         let opts = BackupOptions::default().parent_opts(ParentOptions::default().force(parent == "0"));
         if i > 0 {
             std::thread::sleep(std::time::Duration::from_millis(2));
@@ -585,6 +634,13 @@ fn bump(rng: &mut Rng, m: i64, stats: &mut Stats) -> i64 {
     }
 }
 
+fn content_len(c: &Content) -> usize {
+    match c {
+        Content::Bytes(b) => b.len(),
+        Content::TreeOf(_) => 0,
+    }
+}
+
 fn intern(table: &mut Vec<Content>, c: Content) -> usize {
     if let Some(i) = table.iter().position(|x| *x == c) {
         i
@@ -594,11 +650,36 @@ fn intern(table: &mut Vec<Content>, c: Content) -> usize {
     }
 }
 
-type Files = BTreeMap<Vec<Vec<u8>>, (K, i64, usize)>;
+type Files = BTreeMap<Vec<Vec<u8>>, (K, i64, usize, Option<u64>)>;
 
 fn to_entries(files: &Files) -> Vec<E> {
     // BTreeMap order on component lists = walk order (directories before their content, siblings by name)
-    files.iter().map(|(p, (k, m, c))| E { path: p.clone(), kind: k.clone(), mtime: *m, content: *c }).collect()
+    files.iter().map(|(p, (k, m, c, r))| E { path: p.clone(), kind: k.clone(), mtime: *m, content: *c, rsize: *r }).collect()
+}
+
+/// A recorded size that is NOT the length of the content (`len`): 0 (stdin-style node), a smaller one (the file grew after `stat`:
+/// below the minimum chunk size, half, one less), a larger one (it shrank).
+fn wrong_size(rng: &mut Rng, len: usize, stats: &mut Stats) -> Option<u64> {
+    let len = len as u64;
+    let r = match rng.below(6) {
+        0..=2 => {
+            stats.hit("c07.rsize.zero");
+            0
+        }
+        3 => {
+            stats.hit("c07.rsize.smaller");
+            *rng.pick(&[1, len / 2, len.saturating_sub(1), 63.min(len)])
+        }
+        4 => {
+            stats.hit("c07.rsize.larger");
+            len + 1 + rng.below(5000)
+        }
+        _ => {
+            stats.hit("c07.rsize.smaller");
+            rng.below(len + 1)
+        }
+    };
+    (r != len).then_some(r)
 }
 
 fn gen_hist(rng: &mut Rng, stats: &mut Stats, thorough: bool) -> String {
@@ -608,7 +689,7 @@ fn gen_hist(rng: &mut Rng, stats: &mut Stats, thorough: bool) -> String {
     let dirs: Vec<Vec<Vec<u8>>> = vec![vec![], vec![b"d".to_vec()], vec![b"d".to_vec(), b"e".to_vec()]];
     let n_dirs = 1 + rng.below(3) as usize;
     for d in dirs.iter().take(n_dirs).skip(1) {
-        _ = files.insert(d.clone(), (K::Dir, 50, 0));
+        _ = files.insert(d.clone(), (K::Dir, 50, 0, None));
     }
     for _ in 0..(1 + rng.below(4)) {
         let mut p = rng.pick(&dirs[..n_dirs]).clone();
@@ -618,7 +699,9 @@ fn gen_hist(rng: &mut Rng, stats: &mut Stats, thorough: bool) -> String {
         }
         let c = intern(&mut table, Content::Bytes(gen_bytes(rng, stats)));
         let nanos = *rng.pick(&[0u32, 0, 1, 999_999_999, 123_456_789, 500_000_000]);
-        _ = files.insert(p, (K::File, stamp(100 + rng.below(3) as i64, nanos), c));
+        // some sources deliver content whose length is not the size their node records (stdin-style nodes: size 0)
+        let rsize = if rng.chance(1, 5) { wrong_size(rng, content_len(&table[c]), stats) } else { None };
+        _ = files.insert(p, (K::File, stamp(100 + rng.below(3) as i64, nanos), c, rsize));
     }
     let mut states = vec![to_entries(&files)];
     let n_states = if thorough { 2 + rng.below(4) } else { 1 + rng.below(3) };
@@ -632,14 +715,45 @@ fn gen_hist(rng: &mut Rng, stats: &mut Stats, thorough: bool) -> String {
         }
         for _ in 0..rng.below(3) {
             let file_paths: Vec<Vec<Vec<u8>>> = files.iter().filter(|(_, v)| v.0 == K::File).map(|(p, _)| p.clone()).collect();
-            match rng.below(10) {
+            match rng.below(12) {
                 0..=4 if !file_paths.is_empty() => {
                     let p = rng.pick(&file_paths).clone();
-                    let (_, m, c) = files[&p].clone();
+                    let (_, m, c, r) = files[&p].clone();
                     if let Content::Bytes(b) = table[c].clone() {
                         let nb = edit(rng, &b, stats);
+                        // a node with a wrong size keeps it (a stream stays a stream; the stale size of a growing file), or gets
+                        // another wrong one; the others record their new length
+                        let nr = match r {
+                            Some(r) if r != nb.len() as u64 && rng.chance(2, 3) => Some(r),
+                            Some(_) => wrong_size(rng, nb.len(), stats),
+                            None => None,
+                        };
                         let nc = intern(&mut table, Content::Bytes(nb));
-                        _ = files.insert(p, (K::File, bump(rng, m, stats), nc));
+                        _ = files.insert(p, (K::File, bump(rng, m, stats), nc, nr));
+                    }
+                }
+                10 | 11 if !file_paths.is_empty() => {
+                    // the same content once more under another name with the OTHER kind of node: a stream (recorded size 0 / wrong)
+                    // of a file's content, or a plain file of a stream's content
+                    let p = rng.pick(&file_paths).clone();
+                    let (_, m, c, r) = files[&p].clone();
+                    if let Content::Bytes(b) = table[c].clone() {
+                        let nr = if r.is_some() {
+                            stats.hit("c07.edit.stream-content-as-file");
+                            None
+                        } else {
+                            stats.hit("c07.edit.file-content-as-stream");
+                            wrong_size(rng, b.len(), stats)
+                        };
+                        let mut q = rng.pick(&dirs[..n_dirs]).clone();
+                        q.push(rng.pick(&NAMES).to_vec());
+                        if !files.contains_key(&q) && !dirs.contains(&q) {
+                            _ = files.insert(q, (K::File, bump(rng, m, stats), c, nr));
+                        } else if files.get(&q).is_some_and(|v| v.0 == K::File && matches!(table.get(v.2), Some(Content::Bytes(_)))) {
+                            // … or in place: the node of an existing file changes its kind together with its content
+                            let m2 = files[&q].1;
+                            _ = files.insert(q, (K::File, bump(rng, m2, stats), c, nr));
+                        }
                     }
                 }
                 5 if !file_paths.is_empty() => {
@@ -679,7 +793,7 @@ fn gen_hist(rng: &mut Rng, stats: &mut Stats, thorough: bool) -> String {
                         Some(old) => bump(rng, old.1, stats),
                         None => 100,
                     };
-                    _ = files.insert(vec![name.to_vec()], (K::File, m, c));
+                    _ = files.insert(vec![name.to_vec()], (K::File, m, c, None));
                 }
                 _ => {
                     stats.hit("c07.edit.new-file");
@@ -687,7 +801,8 @@ fn gen_hist(rng: &mut Rng, stats: &mut Stats, thorough: bool) -> String {
                     q.push(rng.pick(&NAMES).to_vec());
                     if !files.contains_key(&q) && !dirs.contains(&q) {
                         let c = intern(&mut table, Content::Bytes(gen_bytes(rng, stats)));
-                        _ = files.insert(q, (K::File, 100, c));
+                        let rsize = if rng.chance(1, 4) { wrong_size(rng, content_len(&table[c]), stats) } else { None };
+                        _ = files.insert(q, (K::File, 100, c, rsize));
                     }
                 }
             }
@@ -700,7 +815,19 @@ fn gen_hist(rng: &mut Rng, stats: &mut Stats, thorough: bool) -> String {
     }
     stats.add("c07.hist.states", states.len() as u64);
     let parent = rng.below(2);
-    format!("c07 hist {parent} {avg} {min} {max} {} {}", enc_table(&table), states.iter().map(|s| enc_state(s)).collect::<Vec<_>>().join("|"))
+    // a transient read error of one index file while the index is reloaded before a backup (1 history in 3)
+    let faults = if states.len() > 1 && rng.chance(1, 3) {
+        let n = 1 + rng.below(2);
+        let mut f: BTreeMap<usize, usize> = BTreeMap::new();
+        for _ in 0..n {
+            _ = f.insert(1 + rng.below(states.len() as u64 - 1) as usize, rng.below(8) as usize);
+        }
+        stats.add("c07.hist.index-read-faults", f.len() as u64);
+        format!(" {}", f.iter().map(|(i, k)| format!("{i}.{k}")).collect::<Vec<_>>().join(","))
+    } else {
+        String::new()
+    };
+    format!("c07 hist {parent} {avg} {min} {max} {} {}{faults}", enc_table(&table), states.iter().map(|s| enc_state(s)).collect::<Vec<_>>().join("|"))
 }
 
 fn gen_pack(rng: &mut Rng, stats: &mut Stats) -> String {
@@ -743,9 +870,9 @@ fn directed_hist(ops: &mut Vec<String>, stats: &mut Stats) {
             let table = vec![Content::Bytes(b0), Content::Bytes(b1), Content::Bytes(b2), Content::Bytes(b3), Content::Bytes(other)];
             let st = |m: i64, c: usize| {
                 vec![
-                    E { path: vec![b"d".to_vec()], kind: K::Dir, mtime: 50, content: 0 },
-                    E { path: vec![b"d".to_vec(), b"g".to_vec()], kind: K::File, mtime: stamp(100, 7), content: 4 },
-                    E { path: vec![b"f".to_vec()], kind: K::File, mtime: m, content: c },
+                    E { path: vec![b"d".to_vec()], kind: K::Dir, mtime: 50, content: 0, rsize: None },
+                    E { path: vec![b"d".to_vec(), b"g".to_vec()], kind: K::File, mtime: stamp(100, 7), content: 4, rsize: None },
+                    E { path: vec![b"f".to_vec()], kind: K::File, mtime: m, content: c, rsize: None },
                 ]
             };
             let states = [
@@ -761,8 +888,47 @@ fn directed_hist(ops: &mut Vec<String>, stats: &mut Stats) {
     }
 }
 
+/// Directed histories (every run): the SAME content behind a node that records its real size (a file) and behind nodes that do not —
+/// size 0 (stdin-style: `backup -`, `--stdin-command`, block device as file), a stale smaller size (the file grew after `stat`), a
+/// larger one (it shrank) — content several chunks long, file first or stream first, then an insert into the stream, an append, an
+/// unchanged state; forced and parent-based; also with a failing read of one index file while the index is reloaded.  The chunks of a
+/// node are those of its content: the stream adds nothing the file has stored and an insert re-uploads only the disturbed chunks.
+fn directed_streams(ops: &mut Vec<String>, stats: &mut Stats) {
+    let mut r = Rng::new(0xC07_57DE);
+    for (k, (avg, min, max, len)) in [(64usize, 64usize, 256usize, 1500usize), (256, 100, 1024, 5000), (128, 128, 128, 700)].into_iter().enumerate() {
+        for parent in [0, 1] {
+            let b0 = r.bytes(len);
+            let mut b1 = b0.clone();
+            let ins = r.bytes(30);
+            b1.splice(len / 2..len / 2, ins);
+            let mut b2 = b1.clone();
+            b2.extend(r.bytes(200));
+            let (l1, l2) = (b1.len() as u64, b2.len() as u64);
+            let table = vec![Content::Bytes(b0), Content::Bytes(b1), Content::Bytes(b2)];
+            let f = |name: &[u8], m: i64, c: usize, rsize: Option<u64>| E { path: vec![name.to_vec()], kind: K::File, mtime: m, content: c, rsize };
+            let file_first = k % 2 == 0;
+            let first = if file_first { vec![f(b"f", stamp(100, 1), 0, None)] } else { vec![f(b"s", stamp(100, 2), 0, Some(0))] };
+            let states = [
+                first,
+                vec![f(b"f", stamp(100, 1), 0, None), f(b"s", stamp(100, 2), 0, Some(0))], // the same bytes as file and as stream
+                vec![f(b"f", stamp(100, 1), 0, None), f(b"s", stamp(100, 3), 1, Some(0))], // bytes inserted into the stream
+                vec![f(b"f", stamp(100, 1), 0, None), f(b"s", stamp(101, 3), 2, Some(l1))], // appended; the node records the old size
+                vec![f(b"f", stamp(100, 1), 0, None), f(b"s", stamp(102, 3), 2, Some(l2 + 1000))], // same content, a too large size
+                vec![f(b"f", stamp(103, 1), 2, None), f(b"s", stamp(102, 3), 2, Some(l2 + 1000))], // the stream's content as a file
+                vec![f(b"f", stamp(103, 1), 2, None), f(b"g", stamp(104, 0), 1, Some(1))], // earlier content, recorded size 1
+            ];
+            stats.hit("c07.hist.directed.stream-and-file");
+            let st = states.iter().map(|s| enc_state(s)).collect::<Vec<_>>().join("|");
+            ops.push(format!("c07 hist {parent} {avg} {min} {max} {} {st}", enc_table(&table)));
+            stats.hit("c07.hist.directed.index-read-fault");
+            ops.push(format!("c07 hist {parent} {avg} {min} {max} {} {st} 1.{k},2.{},5.{}", enc_table(&table), k + 1, k + 2));
+        }
+    }
+}
+
 pub fn generate(thorough: bool, rng: &mut Rng, ops: &mut Vec<String>, stats: &mut Stats) {
     directed_hist(ops, stats);
+    directed_streams(ops, stats);
     for _ in 0..(if thorough { 1500 } else { 120 }) {
         let mut r = rng.fork();
         ops.push(gen_hist(&mut r, stats, thorough));
@@ -791,7 +957,8 @@ pub fn generate(thorough: bool, rng: &mut Rng, ops: &mut Vec<String>, stats: &mu
 pub fn exec(t: &[&str]) -> String {
     let t: Vec<String> = t.iter().map(|s| (*s).to_string()).collect();
     guarded(move || match t.iter().map(String::as_str).collect::<Vec<_>>().as_slice() {
-        ["hist", parent, avg, min, max, table, states] => exec_hist(parent, avg, min, max, table, states),
+        ["hist", parent, avg, min, max, table, states] => exec_hist(parent, avg, min, max, table, states, "-"),
+        ["hist", parent, avg, min, max, table, states, faults] => exec_hist(parent, avg, min, max, table, states, faults),
         ["pack", dsize, tsize, adds] => exec_pack(dsize, tsize, adds),
         ["many", dsize, n, len, dups] => exec_many(dsize, n, len, dups),
         _ => "bad-op".into(),
